@@ -707,6 +707,68 @@ def t16(rep):
     rep.floor("backtrace sites of the interpreter outside bug paths", n, 3)
 
 
+def t17_digest(f):
+    base = f.unit.split("/")[-1]
+    out = []
+    for name, fn in f.funcs.items():
+        if "body" not in fn or not fn.get("file", "").endswith(base) or base == "bigint.c":
+            continue
+        cs = calls(fn["body"], "bintToPlacevS")
+        if not cs:
+            continue
+        for c in cs:
+            if len(c["c"]) < 4:
+                continue
+            dv = None
+            a = strip(c["c"][3])
+            if a is not None and a["k"] == "UnaryOperator" and a["op"] == "&":
+                dv = (strip(a["c"][0]) or {}).get("n")
+            if dv is None:
+                continue
+            uses = [y for y in walk(fn["body"]) if y["k"] == "DeclRefExpr" and y["n"] == dv]
+            par = common.parents(fn["body"])
+            consumed = False
+            for y in uses:
+                p_ = par.get(y["id"])
+                while p_ is not None and p_["k"] in ("ParenExpr", "ImplicitCastExpr", "CStyleCastExpr"):
+                    p_ = par.get(p_["id"])
+                if p_ is None:
+                    continue
+                if p_["k"] == "UnaryOperator" and p_["op"] == "&":
+                    continue                                  # the out-parameter itself
+                if p_["k"] == "CallExpr" and p_.get("callee") == "bintReleasePlacevS":
+                    continue
+                consumed = True
+            sign = any((y["k"] == "MemberExpr" and y["n"] == "isNeg") or (y["k"] == "CallExpr" and y.get("callee") in ("bintIsNeg", "bintSign", "bintIsPos"))
+                       or (y.get("mac") in ("bintIsNeg", "IsNeg")) for y in walk(fn["body"]))
+            out.append((name, c["l"], consumed, sign))
+    return out
+
+
+def t17(rep):
+    """bintToPlacevS gives the *magnitude* of a big integer as 16-bit places; its sign is a separate bit (the byte-code writer
+    puts it in its own byte, the C generator hands it to fiBIntFrPlacev next to the place vector).  Whoever looks at the places
+    -- writes them, compares them, keys a table on them -- must look at the sign too: a table of `large constants already
+    emitted` keyed by the places alone makes the literal -N, met after N in the same unit, the global that holds N; the
+    executable computes with +N where the interpreter reads -N from the byte code.  Every function outside bigint.c that uses
+    the places bintToPlacevS returns (beyond releasing them) also consults the sign."""
+    dig = common.map_units(common.compiler_units(), t17_digest, "compiler", all_trees=True)
+    n = 0
+    for u in sorted(dig):
+        base = u.split("/")[-1]
+        for name, line, consumed, sign in dig[u]:
+            n += 1
+            key = "places-travel-with-their-sign:%s:%s" % (base, name)
+            if not consumed or sign:
+                rep.ok("T17", key + "@%d" % line, nontrivial=consumed)
+            else:
+                rep.violation("T17", key, "%s:%d (%s)" % (base, line, name),
+                              "%s uses the place vector of a big integer and never looks at its sign: two constants of equal "
+                              "magnitude and opposite sign are the same to it (the C generated for -N after N in one unit refers "
+                              "to the global holding N; the interpreter reads the sign from the byte code)" % name)
+    rep.floor("uses of bintToPlacevS outside bigint.c", n, 3)
+
+
 def t15(rep):
     """A lexical reference (Lex lev n), an environment reference (Env lev) and the left-hand side of an assignment to a lexical
     all find their frame by following `lev` links from the current environment.  The interpreter unrolls the first levels
@@ -811,6 +873,7 @@ def run(tier, only=None):
     t14(rep)
     t15(rep)
     t16(rep)
+    t17(rep)
     from . import variant_dispatch
     _fg = common.extract("genc.c", all_trees=True)
     for _d, _fl in (("gccExpr", 8), ("gccCmd", 3), ("gccRef", 8)):
